@@ -104,9 +104,13 @@ type mwGetter interface {
 
 // mwAgrees: the two stores agree with the reference at an ARBITRARY key (a fresh symbolic byte,
 // so for every 1-byte key — all keys the harness blocks write are 1-byte keys).
-func mwAgrees(a, b mwGetter, ref mwRef) bool {
+func mwAgrees(a, b mwGetter, ref mwRef) bool { return mwAgreesAt(a, b, ref, v.Bytes(1)) }
+
+// mwAgreesAt: the same comparison at a given probe key (one arbitrary key shared by several
+// comparisons keeps the number of key-order case splits down).
+func mwAgreesAt(a, b mwGetter, ref mwRef, probe []byte) bool {
 	ok := true
-	for _, p := range [][]byte{v.Bytes(1)} {
+	for _, p := range [][]byte{probe} {
 		ga, _ := a.Get(p)
 		gb, _ := b.Get(p)
 		ok = v.And(ok, v.And(mwBytesEq(ga, ref.a.GetRaw(p)), mwBytesEq(gb, ref.b.GetRaw(p))))
